@@ -17,6 +17,7 @@ import (
 	"google.golang.org/protobuf/zverif/model"
 	"google.golang.org/protobuf/zverif/ops"
 	"google.golang.org/protobuf/zverif/pbt"
+	"google.golang.org/protobuf/zverif/ref"
 	"pgregory.net/rapid"
 )
 
@@ -214,6 +215,9 @@ func checkTwin(c twinCase) error {
 				cur = st.Src.Clone()
 			}
 		default: // reflection write
+			if cur == nil {
+				return fmt.Errorf("harness: write step without a model")
+			}
 			if err := ops.ApplyModel(md, cur, st.Op); err != nil {
 				return err
 			}
@@ -298,9 +302,37 @@ func drawTwin(t *rapid.T) twinCase {
 	eo.Interleave = true
 	eo.Labels = &c.Labels
 	enc := model.Encode(md, content, gen.RapidChooser{T: t}, eo, nil)
-	if rapid.IntRange(0, 5).Draw(t, "corrupt") == 0 {
-		c.In, c.Corrupt = gen.MutateDeep(t, enc)
-		return c // verdict comparison only (content unknown)
+	if k := rapid.IntRange(0, 7).Draw(t, "corrupt"); k <= 1 {
+		if k == 0 {
+			c.In, c.Corrupt = gen.MutateDeep(t, enc)
+		} else {
+			c.In, c.Corrupt = injectWrongWire(t, md, enc), "wrong-wiretype-occurrence"
+		}
+		// content unknown to the model: verdict comparison, then read-only steps at blind paths
+		n := rapid.IntRange(1, 8).Draw(t, "rsteps")
+		for i := 0; i < n; i++ {
+			k := rapid.SampledFrom([]string{"has", "get", "get", "get", "size", "marshal", "detmarshal", "equal", "clone", "checkinit", "json", "text", "mergefrom"}).Draw(t, "rkind")
+			st := step{Op: ops.Op{Kind: k}}
+			if k == "has" || k == "get" {
+				d := md
+				for depth := rapid.IntRange(0, 3).Draw(t, "blinddepth"); depth > 0; depth-- {
+					lf := corpus.LazyFields(d)
+					if len(lf) == 0 {
+						break
+					}
+					num := lf[rapid.IntRange(0, len(lf)-1).Draw(t, "blindlf")]
+					st.Path = append(st.Path, ops.Step{Num: int32(num), Idx: -1})
+					d = d.Fields().ByNumber(num).Message()
+				}
+				if lf := corpus.LazyFields(d); len(lf) > 0 && rapid.IntRange(0, 3).Draw(t, "blindlazy") > 0 {
+					st.Num = int32(lf[rapid.IntRange(0, len(lf)-1).Draw(t, "blindlfi")])
+				} else {
+					st.Num = int32(d.Fields().Get(rapid.IntRange(0, d.Fields().Len()-1).Draw(t, "blindfield")).Number())
+				}
+			}
+			c.Steps = append(c.Steps, st)
+		}
+		return c
 	}
 	c.M, c.In = content, enc
 	cur := content.Clone()
@@ -351,6 +383,61 @@ func drawTwin(t *rapid.T) twinCase {
 		}
 	}
 	return c
+}
+
+// injectWrongWire inserts, next to an occurrence of a lazy field (at the top level or one lazy level
+// down), a record that carries the same field number with another wire type. Both decoders must
+// treat it as an unknown field; the lazy index sees two adjacent entries for one field number.
+func injectWrongWire(t *rapid.T, md protoreflect.MessageDescriptor, enc []byte) []byte {
+	recs, ok := ref.Split(enc)
+	if !ok {
+		return enc
+	}
+	lazy := map[int64]bool{}
+	for _, n := range corpus.LazyFields(md) {
+		lazy[int64(n)] = true
+	}
+	var idx []int
+	for i, r := range recs {
+		if lazy[r.Num] {
+			idx = append(idx, i)
+		}
+	}
+	if len(idx) == 0 {
+		return enc
+	}
+	at := idx[rapid.IntRange(0, len(idx)-1).Draw(t, "wwat")]
+	num := recs[at].Num
+	junk := func() []byte {
+		switch rapid.IntRange(0, 2).Draw(t, "wwtype") {
+		case 0:
+			return append(ref.Tag(nil, num, 0), 0x2a)
+		case 1:
+			return ref.Fixed64(ref.Tag(nil, num, 1), 7)
+		}
+		return ref.Fixed32(ref.Tag(nil, num, 5), 7)
+	}
+	var out []byte
+	for i, r := range recs {
+		raw := r.Raw
+		if i == at && r.Typ == 2 && rapid.Bool().Draw(t, "wwnested") {
+			// recurse one level: the payload is a message of the lazy field's type
+			sub := md.Fields().ByNumber(protoreflect.FieldNumber(num)).Message()
+			p := injectWrongWire(t, sub, r.Payload())
+			raw = append(ref.Varint(ref.Tag(nil, r.Num, 2), uint64(len(p))), p...)
+		}
+		if i == at && rapid.Bool().Draw(t, "wwbefore") {
+			out = append(out, junk()...)
+		}
+		out = append(out, raw...)
+		if i == at && rapid.Bool().Draw(t, "wwafter") {
+			out = append(out, junk()...)
+			if rapid.Bool().Draw(t, "wwagain") {
+				out = append(out, r.Raw...) // right, wrong, right
+			}
+		}
+	}
+	return out
 }
 
 func lazyDepth(md protoreflect.MessageDescriptor, v *model.Msg) int {
